@@ -17,8 +17,8 @@ const int kCaps[] = { 1, 24, 32, 64 };
 
 const char * kindName(int k)
 {
-	static const char * n[] = { "?", "move", "read", "isType", "queueRoundTrip", "rebuild" };
-	return (k > 0 && k <= 5) ? n[k] : "?";
+	static const char * n[] = { "?", "move", "read", "isType", "queueRoundTrip", "rebuild", "throwingConstruction" };
+	return (k > 0 && k <= 6) ? n[k] : "?";
 }
 
 Grammar makeGrammar()
@@ -35,6 +35,7 @@ Grammar makeGrammar()
 		{ A_MOVE, "move", 10, ArgSpec(0, 0), ArgSpec(0, 0), ArgSpec(0, 0), -1, 0 },
 		{ A_READ, "read", 3, ArgSpec(0, 0), ArgSpec(0, 0), ArgSpec(0, 0), -1, 0 },
 		{ A_QUEUE, "queueRoundTrip", 6, ArgSpec(0, 1), ArgSpec(0, 1), ArgSpec(0, 0), -1, 0 },
+		{ A_THROW, "throwingConstruction", 4, ArgSpec(0, 2), ArgSpec(0, 1), ArgSpec(0, 0), -1, 0 },
 	};
 	g.levels.push_back(top);
 	return g;
@@ -67,6 +68,7 @@ Verdict run(const Program & p, const std::string &)
 	if(kind == 4) v.classes.push_back("trivial_copy_user_move");
 	if(kind == 5) v.classes.push_back("initializer_list_constructor_over_itself");
 	if(queue) v.classes.push_back("queue_round_trip");
+	for(const Op & op : p.ops) if(op.kind == A_THROW && kind == 1) { v.classes.push_back("held_object_construction_throws"); break; }
 	v.nontrivial = nearCap && kind != 0 && (moves >= 2 || queue);
 	v.trace = "AnyData<" + std::to_string(kCaps[mi]) + "> holding P<" + std::to_string(N) + "," + std::to_string(kind) + ">";
 	if(! r.ok) v.fail(r.rule, r.rule.compare(0, 6, "ledger") == 0 ? "C08,C17" : "C17", v.trace + ": " + r.msg);
@@ -86,10 +88,12 @@ std::string enumerate(const std::string &, const std::function<bool (const Progr
 		Op mv; mv.kind = A_MOVE;
 		Op q0; q0.kind = A_QUEUE; q0.a = 1; q0.b = 0;
 		Op q1; q1.kind = A_QUEUE; q1.a = 1; q1.b = 1;
-		p.ops = { mv, mv, q0, mv, q1 };
+		Op t0; t0.kind = A_THROW; t0.a = how; t0.b = 0;
+		Op t1; t1.kind = A_THROW; t1.a = how; t1.b = 1;
+		p.ops = { mv, mv, q0, mv, q1, t0, t1 };
 		if(! sink(p)) return "aborted at the first failure";
 	}
-	return "all 19 sizes x 6 kinds x 4 capacities x 3 construction forms with the script move,move,queue(process),move,queue(processOne)";
+	return "all 19 sizes x 6 kinds x 4 capacities x 3 construction forms with the script move,move,queue(process),move,queue(processOne),throwing move,throwing build";
 }
 
 } // namespace
